@@ -101,7 +101,7 @@ REGRESSION_CASES = [
 def plan(tier):
     if tier == "quick":
         return {"runs": 4000, "chunk": 25, "wall_cap": 240, "chunk_timeout": 900}
-    return {"runs": 40000, "chunk": 40, "wall_cap": 3300, "chunk_timeout": 1800}
+    return {"runs": 40000, "chunk": 40, "wall_cap": 900, "chunk_timeout": 1800}
 
 
 def _modules():
